@@ -173,6 +173,10 @@ func main() {
 		cmdCodec(os.Args[2:])
 	case "sched":
 		cmdSched(os.Args[2:])
+	case "trunc":
+		cmdTrunc(os.Args[2:])
+	case "fault":
+		cmdFault(os.Args[2:])
 	default:
 		fmt.Fprintln(os.Stderr, "unknown engine", os.Args[1])
 		os.Exit(2)
